@@ -321,3 +321,30 @@ Proof.
   rewrite (text_links shapes_msel shapes_comps shapes_lines PR ltac:(discriminate) A).
   eexists. split; [vm_compute; reflexivity|]. split; reflexivity.
 Qed.
+
+(* a two-routine text, verbatim what compileTeal prints on /repo for Return(f(Int(5))) with a subroutine named
+   "foo<LF>int 0" (body x * 2): the subroutine header (empty line, one comment line per line of the name, label) is
+   in the printable class; the text parses to the linked program *)
+Definition two_comps : list comp :=
+  [ CPragma 6; opi O_int 5; COp (mkI O_callsub [AStr "fooint0_0"]); op_ O_return_;
+    CLabel "fooint0_0" (Some ("foo" ++ nl ++ "int 0")%string);
+    opi O_store 0; opi O_load 0; opi O_int 2; op_ O_mul; op_ O_retsub ].
+
+Example subroutine_header_roundtrip :
+  printable [] two_comps = true /\
+  (exists lines, assemble_all two_comps = Some lines /\
+     program_text lines =
+       ("#pragma version 6" ++ nl ++ "int 5" ++ nl ++ "callsub fooint0_0" ++ nl ++ "return" ++ nl ++
+        nl ++ "// foo" ++ nl ++ "// int 0" ++ nl ++ "fooint0_0:" ++ nl ++ "store 0" ++ nl ++ "load 0" ++ nl ++
+        "int 2" ++ nl ++ "*" ++ nl ++ "retsub")%string /\
+     parse_program [] (program_text lines) = link [] two_comps) /\
+  (exists P, link [] two_comps = Some P /\ List.length (pr_code P) = 8 /\ label_pc P "fooint0_0" = Some 3 /\
+             fst (run 100 ex_ctx P (init_mach ex_st)) = VApprove).
+Proof.
+  assert (PR : printable [] two_comps = true) by (vm_compute; reflexivity).
+  split; [exact PR|]. split.
+  - destruct (printable_assembles [] two_comps PR) as [lines A]. exists lines. split; [exact A|].
+    split; [|apply text_links; [exact PR|discriminate|exact A]].
+    vm_compute in A. injection A as <-. vm_compute. reflexivity.
+  - eexists. split; [vm_compute; reflexivity|]. repeat split.
+Qed.
